@@ -1315,8 +1315,8 @@ class ObjectDomain(EffectDomain):
                     out = []
                     for r in recv:
                         dd = "self." + f_.attr
-                        if self._is_method_value(dd) or self.track(dd) or dd in self.results or dd in self.raises or (
-                                getattr(self, "root_class", None) is not None and self._method(self.root_class, f_.attr) is not None):
+                        if not r.state.has(dd) and (self._is_method_value(dd) or self.track(dd) or dd in self.results or dd in self.raises or (
+                                getattr(self, "root_class", None) is not None and self._method(self.root_class, f_.attr) is not None)):
                             for bad, pos, kw, s2 in self._call_args(interp, call, r.state, fr):
                                 if bad is not None:
                                     out.append(bad)
